@@ -283,7 +283,9 @@ class Prop(Check):
     LEAN_MODULE = "TextxVerif.Props.C08"
     THEOREMS = ["Resolve.C08_order", "Resolve.C08_targets", "Resolve.C08_prefix_sorted", "Resolve.C08_append_false",
                 "RefList.C08_keyed_order", "RefList.C08_keyed_positions", "RefList.C08_history_order",
-                "RefList.C08_shared_book_false", "RefList.C08_falsy_position_false"]
+                "RefList.C08_shared_book_false", "RefList.C08_falsy_position_false",
+                "Resolve.C08_append_spec", "RefList.C08_loop_keyed", "RefList.C08_loop_keyed_files",
+                "RefList.C08_loop_keyed_result", "RefList.C08_loopQ_keyed"]
     DRIVER = "Drivers/RefList.lean"
     QUICK_CASES = 500
     THOROUGH_CASES = 8000
